@@ -49,7 +49,7 @@ theorem isRegister_regName : ∀ r : Reg, isRegister (regName r) = true := by de
 theorem regTable_nodup : (regTable.map Prod.fst).Nodup := by decide
 theorem regTable_len : ∀ p ∈ regTable, p.1.length ≤ 4 := by decide
 
-theorem reg_names (s : Bytes) (r : Reg) : regl s = some r ↔ upper s ∈ names r := by
+theorem reg_names_proof (s : Bytes) (r : Reg) : regl s = some r ↔ upper s ∈ names r := by
   unfold regl names
   constructor
   · intro h
